@@ -106,9 +106,11 @@ def props_assumptions(prop_file):
     """Compile-time output of Print Assumptions for Props/<id>.v: returns list of
     (theorem, closed?) by re-running coqc on the props file."""
     path = os.path.join(COQ, "theories", "Props", prop_file)
-    r = subprocess.run(["coqc", "-R", os.path.join(COQ, "theories"), "TEV", "-w", "-notation-overridden", path,
-                        "-o", os.path.join(BUILD, "props_" + prop_file + "o")],
-                       capture_output=True, text=True, cwd=COQ, timeout=600)
+    pa = os.path.join(BUILD, "pa")
+    os.makedirs(pa, exist_ok=True)
+    shutil.copyfile(path, os.path.join(pa, prop_file))
+    r = subprocess.run(["coqc", "-R", os.path.join(COQ, "theories"), "TEV", "-w", "-notation-overridden", prop_file],
+                       capture_output=True, text=True, cwd=pa, timeout=600)
     out = r.stdout + r.stderr
     if r.returncode != 0:
         return None, out
